@@ -1390,6 +1390,88 @@ fn run_stdlib_model(ops: &[Op], variant: u64) {
     }
 }
 
+// ---------------------------------------------------------------- upvalue_list (C06 / C02: the list of open upvalues)
+// kind 0..5: make() declares locals v0..v3 (values 10, 20, 30, 40) and returns a closure that captures them in the order
+//   given by a permutation (kind picks it) and returns v0*1000000 + v1*10000 + v2*100 + v3; main calls make(), then
+//   clobber() (which reuses the stack slots), then the closure: every captured variable must have survived make()'s
+//   return (an upvalue that dropped out of the open list is never closed and reads a reused slot).
+// kind 6: make() creates a closure over `a`, drops it, allocates on a small heap (a collection frees the dropped
+//   closure and, unless open upvalues are roots, its upvalue object, which is still linked in the open list), then
+//   creates another closure over `a` -- which walks that list.  Child process under valgrind.
+fn upvalue_list_scenario(ops: &[Op]) {
+    let kind = ops[0].0 % 7;
+    let closure = |cards: Vec<Card>| -> Card { CardBody::Closure(Box::new(Function::default().with_cards(cards))).into() };
+    let bin = |a: Card, b: Card| cao_lang::compiler::BinaryExpression::new([a, b]);
+    if kind == 6 {
+        let module = Module {
+            functions: vec![
+                ("make".to_string(), Function::default().with_cards(vec![
+                    Card::set_var("a", Card::scalar_int(10)),
+                    Card::set_var("tmp", closure(vec![Card::return_card(Card::read_var("a"))])),
+                    Card::set_var("tmp", CardBody::ScalarNil),
+                    Card::repeat(Card::scalar_int(400 + (ops[0].1 % 8) as i64 * 100), None, Card::set_var("junk", CardBody::CreateTable)),
+                    Card::return_card(closure(vec![Card::return_card(Card::read_var("a"))])),
+                ])),
+                ("main".to_string(), Function::default().with_cards(vec![
+                    Card::set_global_var("c", Card::call_function("make", vec![])),
+                    Card::set_global_var("g", Card::dynamic_call(Card::read_var("c"), vec![])),
+                ])),
+            ],
+            ..Default::default()
+        };
+        let program = compile(module, None).unwrap();
+        let mut vm = Vm::new(()).unwrap().with_max_iter(10_000_000);
+        vm.runtime_data.set_memory_limit(32 << 10);
+        let r = vm.run(&program);
+        let g = vm.read_var_by_name("g", &program.variables).and_then(|v| v.as_int());
+        println!("CHILD finished: {:?}, g = {g:?}", r.as_ref().map(|_| ()).map_err(|e| &e.payload));
+        if r.is_ok() && g != Some(10) { std::process::exit(3); }
+        return;
+    }
+    // the order in which the closure body mentions (= captures) the four variables
+    let perms: [[usize; 4]; 6] = [[0, 1, 2, 3], [3, 2, 1, 0], [1, 0, 3, 2], [2, 0, 3, 1], [0, 3, 1, 2], [1, 2, 0, 3]];
+    let perm = perms[kind as usize];
+    let weight = [1_000_000i64, 10_000, 100, 1];
+    let mut sum: Card = Card::scalar_int(0);
+    for &v in perm.iter() {
+        sum = CardBody::Add(bin(sum, CardBody::Mul(bin(Card::read_var(format!("v{v}")), Card::scalar_int(weight[v]))).into())).into();
+    }
+    let mut make: Vec<Card> = (0..4).map(|i| Card::set_var(format!("v{i}"), Card::scalar_int(10 * (i as i64 + 1)))).collect();
+    make.push(Card::return_card(closure(vec![Card::return_card(sum)])));
+    let module = Module {
+        functions: vec![
+            ("make".to_string(), Function::default().with_cards(make)),
+            ("clobber".to_string(), Function::default().with_cards(vec![
+                Card::set_var("x", Card::scalar_int(777)), Card::set_var("y", Card::scalar_int(888)),
+                Card::set_var("z", Card::scalar_int(999)), Card::set_var("w", Card::scalar_int(555)),
+                Card::return_card(Card::read_var("x")),
+            ])),
+            ("main".to_string(), Function::default().with_cards(vec![
+                Card::set_global_var("c", Card::call_function("make", vec![])),
+                Card::set_global_var("junk", Card::call_function("clobber", vec![])),
+                Card::set_global_var("g", Card::dynamic_call(Card::read_var("c"), vec![])),
+            ])),
+        ],
+        ..Default::default()
+    };
+    let program = compile(module, None).unwrap();
+    let mut vm = Vm::new(()).unwrap();
+    let r = vm.run(&program);
+    let g = vm.read_var_by_name("g", &program.variables).and_then(|v| v.as_int());
+    println!("CHILD finished: {:?}, g = {g:?} (captured in the order {perm:?})", r.as_ref().map(|_| ()).map_err(|e| &e.payload));
+    if g != Some(10_203_040) { std::process::exit(3); }
+}
+
+fn run_upvalue_list(ops: &[Op]) {
+    if std::env::var("CAO_REPLAY_CHILD").is_ok() { upvalue_list_scenario(ops); return; }
+    if let Some(what) = run_child("upvalue_list", ops) {
+        if ops[0].0 % 7 == 6 {
+            fail("upvalue_list", ops, 0, format!("make {{ a = 10; tmp = || a; tmp = nil; (allocate on a 32 KiB heap); return || a }}; main {{ c = make(); g = c() }}: {what} (the dropped closure's upvalue is still in the list of open upvalues)"));
+        }
+        fail("upvalue_list", ops, 0, format!("make {{ v0 = 10; v1 = 20; v2 = 30; v3 = 40; return || (the four variables, captured in a given order) }}; main {{ c = make(); clobber(); g = c() }}, expected g = 10203040: {what}"));
+    }
+}
+
 fn dispatch(unit: &str, ops: &[Op], variant: u64) {
     VARIANT.store(variant, std::sync::atomic::Ordering::Relaxed);
     match unit {
@@ -1406,6 +1488,7 @@ fn dispatch(unit: &str, ops: &[Op], variant: u64) {
         "closure_capture" => run_closure_capture(ops),
         "gc_roots" => run_gc_roots(ops),
         "cyclic_table" => run_cyclic_table(ops),
+        "upvalue_list" => run_upvalue_list(ops),
         "stdlib_model" => run_stdlib_model(ops, variant),
         "callback_mutation" => run_callback_mutation(ops),
         "operand_rooting" => run_operand_rooting(ops),
@@ -1436,6 +1519,11 @@ fn main() {
         // nine shapes: each spawns a child process
         for kind in 0..3u8 { for len in 0..3u64 { dispatch(unit, &[(kind, len, 0)], 0); } }
         println!("OK comparing, hashing and converting tables that contain themselves (cycle length 1..3) returned normally");
+        return;
+    }
+    if unit == "upvalue_list" {
+        for kind in 0..7u8 { dispatch(unit, &[(kind, 2, 0)], 0); }
+        println!("OK captured variables survived their function's return and the open-upvalue list stayed intact");
         return;
     }
     if unit == "operand_rooting" {
